@@ -20,7 +20,7 @@ for pid in ids:
         "evidence_file": "evidence/%s.json" % pid,
         "replay_cmd_template": "./check %s --replay {path}" % pid,
         "engine": "gosmt",
-        "level_claimed": {"category": "model_checking", "text": n.get("text", props.PROPS[pid]["level_text"]), "design_ref": n.get("design_ref", "DESIGN.md section 6, " + pid)},
+        "level_claimed": {"category": "model_checking", "text": n.get("text", props.PROPS[pid]["level_text"]), "design_ref": n.get("design_ref", "DESIGN.md section 5, " + pid)},
         "level_note": n.get("note", "; ".join(props.PROPS[pid]["assumptions"])),
         "technique": n.get("technique", "solver-based checking of the real code: go/ssa -> SMT-LIB2 symbolic execution (gosmt), z3 decides each obligation within stated bounds; sat models replayed natively"),
     })
